@@ -156,6 +156,23 @@ func Dial(ctx context.Context, contacts []addresses.CCBContact, opts DialOptions
 		}()
 	}
 
+	// Attempts still in flight when Dial returns are cancelled by attemptCancel,
+	// but one of them may already have completed its reverse connection (or may
+	// complete it before it notices the cancellation). Its result is never read
+	// from results, so close such a connection here: a losing attempt must not
+	// leak an established connection to the target.
+	defer func() {
+		if n := inflight; n > 0 {
+			go func() {
+				for ; n > 0; n-- {
+					if res := <-results; res.conn != nil {
+						_ = res.conn.Close()
+					}
+				}
+			}()
+		}
+	}()
+
 	launch() // first broker
 	timer := time.NewTimer(stagger)
 	defer timer.Stop()
@@ -262,6 +279,21 @@ func dialStandard(ctx context.Context, contact addresses.CCBContact, connectID s
 		acceptCh <- acceptResult{conn: conn, err: err}
 	}()
 
+	// If the wait below ends without taking the accept goroutine's result (broker
+	// failure, timeout), a matching reverse connection it accepts in the meantime
+	// would be neither returned nor closed. Reap it once the goroutine finishes
+	// (closing ln, deferred above, unblocks its Accept).
+	acceptTaken := false
+	defer func() {
+		if !acceptTaken {
+			go func() {
+				if r := <-acceptCh; r.conn != nil {
+					_ = r.conn.Close()
+				}
+			}()
+		}
+	}()
+
 	replyCh := make(chan error, 1)
 	go func() {
 		replyCh <- readBrokerFailure(ctx, brokerStream)
@@ -275,6 +307,7 @@ func dialStandard(ctx context.Context, contact addresses.CCBContact, connectID s
 	for {
 		select {
 		case r := <-acceptCh:
+			acceptTaken = true
 			if r.err != nil {
 				return nil, r.err
 			}
